@@ -80,6 +80,17 @@ def check(pid, tier, seed, only_report=None):
                 units[un] = (u, path)
             except ExtractError as e:
                 tool_errors.append("extraction failed for unit %s: %s" % (un, e))
+        # thorough tier: vacuity canaries — every function with a precondition gets `ensures false`, which must fail
+        canary_units = {}
+        if tier == "thorough":
+            for un in prop.get("units", []):
+                try:
+                    cu = U.build(os.path.join(VERIF, "units", un + ".unit"), REPO, canary=True)
+                    cpath = os.path.join(work, un + "_canary.rs")
+                    U.write(cu, cpath)
+                    canary_units[un] = (cu, cpath)
+                except ExtractError:
+                    pass
         vres = {}
         kres = None
         lres = []
@@ -89,8 +100,19 @@ def check(pid, tier, seed, only_report=None):
             kh = [h for h in prop.get("kani", []) if tier == "thorough" or not REG.KANI[h].get("thorough_only")]
             kf = ex.submit(_run_kani, kh) if kh else None
             lf = [ex.submit(L.run, name, work, tier) for name in prop.get("lemmas", [])]
+            cfuts = {un: ex.submit(V.run, cu, cpath, rl) for un, (cu, cpath) in canary_units.items()}
             for un, f in futs.items():
                 vres[un] = f.result()
+            for un, f in cfuts.items():
+                cr = f.result()
+                cu = canary_units[un][0]
+                failed_fns = set(x["obligation"].split(":")[2] for x in cr.failures if x["obligation"].endswith(":__canary__"))
+                vac = [fn for fn in cu.canaries if fn not in failed_fns]
+                backends.setdefault("canary", dict(functions=0, vacuous=[]))
+                backends["canary"]["functions"] += len(cu.canaries)
+                if vac and not cr.tool_errors:
+                    backends["canary"]["vacuous"] += vac
+                    tool_errors.append("[%s] vacuity: `ensures false` verified for %s — contradictory precondition or inconsistent axioms" % (un, ", ".join(vac)))
             if kf:
                 kres = kf.result()
             lres = [f.result() for f in lf]
